@@ -863,6 +863,32 @@ func (c *cenv) call(n *ast.CallExpr) Val {
 				cj = append(cj, tEq(e.readComp(c.post, v.World, comp), e.readComp(c.pre, v.World, comp)))
 			}
 			return termVal(boolT, sBool, tAnd(cj...))
+		case "callarg":
+			// callarg("Callee", i [, nth]): i-th argument of the last (or nth) recorded call of Callee since the last loop entry
+			nameV := c.eval(n.Args[0])
+			callee, _ := e.litContent(nameV.T)
+			var idx, nth int
+			fmt.Sscanf(c.eval(n.Args[1]).T, "%d", &idx)
+			if len(n.Args) > 2 {
+				fmt.Sscanf(c.eval(n.Args[2]).T, "%d", &nth)
+			}
+			var recs []CallRec
+			for i := c.post.loopMark; i < len(c.post.calls); i++ {
+				if lastName(c.post.calls[i].Name) == callee {
+					recs = append(recs, c.post.calls[i])
+				}
+			}
+			if len(recs) == 0 || nth > len(recs) {
+				return c.errf("callarg: no such call of %s on this path", callee)
+			}
+			r := recs[len(recs)-1]
+			if nth > 0 {
+				r = recs[nth-1]
+			}
+			if idx >= len(r.Args) {
+				return c.errf("callarg: argument index out of range")
+			}
+			return r.Args[idx]
 		case "returnedInLoop":
 			// returnedInLoop(N): this path ended with a return statement inside the body of loop N
 			nv := c.eval(n.Args[0])
@@ -1123,7 +1149,15 @@ func (c *cenv) goCall(fn *ssa.Function, recv *Val, argx []ast.Expr) Val {
 	for i, a := range argx {
 		v := c.eval(a)
 		if i < sig.Params().Len() {
-			v = c.coerce(v, sig.Params().At(i).Type())
+			pt := sig.Params().At(i).Type()
+			v = c.coerce(v, pt)
+			// implicit conversion of a concrete value to an interface parameter
+			if _, wantI := pt.Underlying().(*types.Interface); wantI && v.K != kIface && v.Typ != nil {
+				if _, isI := v.Typ.Underlying().(*types.Interface); !isI {
+					inner := v
+					v = Val{K: kIface, Typ: pt, Inner: &inner, Sort: sIface}
+				}
+			}
 		}
 		args = append(args, v)
 	}
